@@ -434,6 +434,40 @@ def pending_import(exe, root, seed, stats):
         return [('(%s) [pending-import] d1/G not restored but fix exits 0' % cfg, hist)]
     return None
 
+def uuid_transition(exe, root, seed, stats):
+    """identity by inode is only trusted on the same file system: the content file recorded NO uuid for the disks (first sync
+    on a file system that reports none), now the disks report one.  A file with the inode, size and time-stamp of a recorded
+    file but another name and other bytes (rewritten in place, renamed, time-stamp restored) must be read again, not taken
+    for a move"""
+    rng = e2e.Rng(seed)
+    a = e2e.Arr(root, exe, ndisks=2, nparity=1, ncontent=1)
+    s = sim.Sim(a, rng.fork(), weird_names=False)
+    nouuid = [o for o in e2e.BASE_OPTS if o != '--test-fake-uuid']
+    data = rng.bytes(a.block * (2 + rng.below(3)) + rng.below(2) * 77)
+    a.write('d1', 'a/old.bin', data, s.tick()); a.write('d1', 'keep', rng.bytes(1500), s.tick()); a.write('d2', 'x', rng.bytes(2500), s.tick())
+    r = s.sync(opts=nouuid)
+    if r.rc != 0:
+        a.destroy(); return None
+    dec = fx.decode(a)
+    if not dec.ok or any(len(m[4]) > 0 for m in dec.maps):
+        a.destroy(); return None          # this file system reports a uuid: the transition cannot be staged
+    p = a.path('d1', 'a/old.bin'); st = os.stat(p)
+    with open(p, 'r+b') as f: f.write(rng.bytes(len(data)))
+    os.makedirs(a.path('d1', 'b'), exist_ok=True)
+    os.rename(p, a.path('d1', 'b/new.bin'))
+    os.utime(a.path('d1', 'b/new.bin'), ns=(st.st_mtime_ns, st.st_mtime_ns))
+    s.log('d1/a/old.bin rewritten in place, renamed to b/new.bin, time-stamp restored (same inode, size, stamp; other bytes)')
+    stats['uuid_transition'] = stats.get('uuid_transition', 0) + 1
+    r2 = s.sync()           # with --test-fake-uuid: the disks now report a uuid
+    problem = None
+    if r2.rc == 0:
+        c = a.cmd('check')
+        if c.rc != 0:
+            problem = '[uuid-transition] after the stored (empty) uuid of the disks changed, a file with a recorded inode/size/stamp but other bytes was trusted: check fails after a successful sync (exit %d): %s' % (c.rc, [t for t in c.tags if t.startswith('error')][:2])
+    hist = '\n'.join(s.history)
+    a.destroy()
+    return [(problem + ' seed=%d' % seed, problem + '\n' + hist)] if problem else None
+
 def main(tier, seed):
     chk = vlib.Check('C19', 'proof', tier, seed)
     chk.assumptions = ['hash functions are abstract in the theorems (any function D -> H); "other data" is detected up to hash collisions (fetch_is_recorded states the separation hypothesis explicitly)',
@@ -457,7 +491,7 @@ def main(tier, seed):
     def job(i):
         return scenario(exe, os.path.join(vlib.scratch(), 'sh%d' % i), seed * 100000 + 96000 + i, stats)
     with ThreadPoolExecutor(vlib.NCPU) as ex:
-        res = list(ex.map(job, range(n))) + list(ex.map(lambda i: pending_import(exe, os.path.join(vlib.scratch(), 'pi%d' % i), seed * 100000 + 97000 + i, stats), range(24 if tier == 'quick' else 240)))
+        res = list(ex.map(job, range(n))) + list(ex.map(lambda i: pending_import(exe, os.path.join(vlib.scratch(), 'pi%d' % i), seed * 100000 + 97000 + i, stats), range(24 if tier == 'quick' else 240))) + list(ex.map(lambda i: uuid_transition(exe, os.path.join(vlib.scratch(), 'ut%d' % i), seed * 100000 + 98000 + i, stats), range(3 if tier == 'quick' else 30)))
     k = 0
     seen = set()
     for r in res:
